@@ -266,6 +266,11 @@ def run(prog: Program) -> Results:
         for node, why, what, exc in probs:
             res.add("R-C20-6", (k, why.split(" [")[0][:60], what), f.loc(node),
                     f"{k}: `{norm(node)[:60]}` — {why}: executing it raises {exc}, an internal error that parse/rebuild must not let out")
+    for it in prog.inline_findings:  # asked of an unreviewed helper before it was dissolved into its caller (sa/inline.py)
+        if it["kind"] == "return shape" and it["caller"] in closure:
+            r6.ob(False, {"site": it["caller"], "problems": [it["why"]]})
+            res.add("R-C20-6", (it["caller"], it["why"].split(" [")[0][:60], "return shape"), f"{it['module']}:{it['lineno']}",
+                    f"{it['caller']}: `{it['text'][:60]}` — {it['why']}: executing it raises TypeError, an internal error that parse/rebuild must not let out")
     # ---------------------------------------------------------------- R-C20-7 Optional fields
     from sa.nonnull import optional_derefs
     r7 = res.rule("R-C20-7", "no implicit AttributeError on None: a field whose declared type admits None is dereferenced "
